@@ -113,6 +113,45 @@ def r1_acceptance(ctx):
               f'{len(calls)} disjointness test(s) in the combination step, expected the candidate and its reversed twin')
     if len(calls) != 2:
         return
+    gens = [enclosing(c, ast.GeneratorExp) for c in calls]
+    if gens[0] is not None and gens[0] is gens[1]:
+        # the same acceptance written as one expression:  if not any(isdisjoint(c, p) or isdisjoint(c_rev, p) for p in comb): extend
+        gen = gens[0]
+        g0 = gen.generators[0]
+        comb = g0.iter.id if len(gen.generators) == 1 and isinstance(g0.iter, ast.Name) and not g0.ifs else None
+        pv = g0.target.id if isinstance(g0.target, ast.Name) else None
+        ctx.check('R1.acceptance', f'{s} both inside the loop over the combination', comb is not None, key(f, 'same-loop'),
+                  'the two disjointness tests are not made over the paths of the combination')
+        for c in calls:
+            second = c.args[1].id if len(c.args) > 1 and isinstance(c.args[1], ast.Name) else None
+            ctx.check('R1.acceptance', f'{site(f, c)} against every path', second == pv and pv is not None, key(f, f'every-path|{ast.unparse(c.args[0])}'),
+                      f'{ast.unparse(c)} is not evaluated for every path of the combination')
+        elt = gen.elt
+        both = isinstance(elt, (ast.BoolOp, ast.BinOp)) and (isinstance(elt, ast.BinOp) and isinstance(elt.op, (ast.Add, ast.BitOr)) or
+                                                             isinstance(elt, ast.BoolOp) and isinstance(elt.op, ast.Or)) and \
+            all(any(x is c for x in (elt.values if isinstance(elt, ast.BoolOp) else [elt.left, elt.right])) for c in calls)
+        anyc = getattr(gen, '_parent', None)
+        is_any = isinstance(anyc, ast.Call) and getattr(anyc.func, 'id', '') == 'any' and len(anyc.args) == 1
+        ctx.check('R1.acceptance', f'{site(f, gen)} no early exit', is_any, key(f, 'no-early-exit'),
+                  'the paths of the combination are not all covered by one any(..) over them')
+        ctx.check('R1.acceptance', f'{s} accumulated', both, key(f, 'accumulate'),
+                  'the results of the disjointness tests are not accumulated into one acceptance value')
+        test = enclosing(gen, ast.If)
+        guard_ok = test is not None and isinstance(test.test, ast.UnaryOp) and isinstance(test.test.op, ast.Not) and test.test.operand is anyc
+        outer = enclosing(test, ast.For) if test is not None else None
+        ok = outer is not None and isinstance(outer.target, ast.Name) and outer.target.id == comb
+        ctx.check('R1.acceptance', f'{site(f, outer) if outer is not None else s} reset per combination', ok, key(f, 'reset'),
+                  'the acceptance is not decided separately for each partial combination')
+        cands = {ast.unparse(c.args[0]) for c in calls}
+        ext = [c for c in ast.walk(test) if isinstance(c, ast.Call) and isinstance(c.func, ast.Attribute) and c.func.attr == 'append'] if test else []
+        ok = guard_ok and len(ext) == 1 and any(ast.unparse(ext[0].args[0]) == f'{comb} + [{cd}]' for cd in cands)
+        appended_elsewhere = [c for c in ast.walk(outer) if isinstance(c, ast.Call) and isinstance(c.func, ast.Attribute) and
+                              c.func.attr == 'append' and not any(c is x for x in ast.walk(test))] if outer is not None else []
+        ctx.check('R1.acceptance', f'{s} extension only when disjoint', bool(ok) and not appended_elsewhere, key(f, 'guarded-extension'),
+                  'a combination is extended by the candidate without the acceptance being established (or the extension is not the '
+                  'combination plus the candidate)')
+        _reversed_twin(ctx, f, s, calls, outer)
+        return
     inner = [enclosing(c, ast.For) for c in calls]
     same_loop = inner[0] is inner[1] and inner[0] is not None
     ctx.check('R1.acceptance', f'{s} both inside the loop over the combination', same_loop, key(f, 'same-loop'),
@@ -172,6 +211,10 @@ def r1_acceptance(ctx):
     ctx.check('R1.acceptance', f'{s} extension only when disjoint', bool(ok) and not appended_elsewhere, key(f, 'guarded-extension'),
               'a combination is extended by the candidate without the acceptance value being 0 (or the extension does not copy the '
               'combination and add the candidate)')
+    _reversed_twin(ctx, f, s, calls, outer)
+
+
+def _reversed_twin(ctx, f, s, calls, outer):
     # the reversed twin is the same-index entry of the reversed table
     cloop = enclosing(outer, ast.For) if outer is not None else None
     ok = False
@@ -361,20 +404,35 @@ def r5_helper(ctx):
     f = repo.func(RQ, 'isdisjoint')
     a, b = f.params
     defs = local_defs(f.node)
-    pw = {nm: v for nm, d in defs.items() for _, v in d if isinstance(v, ast.AST) and 'pairwise(' in ast.unparse(v)}
-    ok = {ast.unparse(v) for v in pw.values()} == {f'list(pairwise({a}))', f'list(pairwise({b}))'}
+    from .common import resolved
     lp = [n for n in walk_no_nested(f.node) if isinstance(n, ast.For)]
     rets = sorted([n for n in walk_no_nested(f.node) if isinstance(n, ast.Return)], key=lambda n: n.lineno)
-    ok2 = False
-    if ok and len(lp) == 1 and len(rets) == 2:
-        e1 = [k for k, v in pw.items() if a in ast.unparse(v)][0]
-        e2 = [k for k, v in pw.items() if b in ast.unparse(v)][0]
+    ok = ok2 = False
+    if len(lp) == 1 and len(rets) == 2:
+        # the pairs of one path are walked, each looked up among the pairs of the other (held in locals or written in place)
         tests = [n for n in walk_no_nested(lp[0]) if isinstance(n, ast.If)]
-        ok2 = ast.unparse(lp[0].iter) in (e1, e2) and len(tests) == 1 and isinstance(tests[0].test, ast.Compare) and \
-            isinstance(tests[0].test.ops[0], ast.In) and ast.unparse(tests[0].test.comparators[0]) in (e1, e2) and \
-            ast.unparse(tests[0].test.comparators[0]) != ast.unparse(lp[0].iter) and \
+        walked = ast.unparse(resolved(defs, lp[0].iter))
+        looked = ast.unparse(resolved(defs, tests[0].test.comparators[0])) if len(tests) == 1 and isinstance(tests[0].test, ast.Compare) and \
+            isinstance(tests[0].test.ops[0], ast.In) else None
+        forms = {a: (f'list(pairwise({a}))', f'pairwise({a})'), b: (f'list(pairwise({b}))', f'set(pairwise({b}))', f'pairwise({b})')}
+        ok = any(walked in forms[x] and looked in (f'list(pairwise({y}))', f'set(pairwise({y}))', f'tuple(pairwise({y}))')
+                 for x, y in ((a, b), (b, a)))
+        ok2 = ok and len(tests) == 1 and ast.unparse(tests[0].test.left) == ast.unparse(lp[0].target) and \
             any(isinstance(x, ast.Return) and isinstance(x.value, ast.Constant) and x.value.value not in (0, False, None) for x in tests[0].body) and \
             isinstance(rets[-1].value, ast.Constant) and rets[-1].value.value == 0 and enclosing(rets[-1], ast.For) is None
+    if not (ok and ok2):
+        # the same test as one expression: int(any(e in <pairs of one path> for e in <pairs of the other>))
+        from .common import through_locals
+        from ..pattern import mexpr
+        rr = [n for n in walk_no_nested(f.node) if isinstance(n, ast.Return)]
+        if len(rr) == 1 and rr[0].value is not None and not lp:
+            v = through_locals(rr[0].value, defs, keep={a, b}, fresh_ok=True)      # only membership is asked of the list
+            for x, y in ((a, b), (b, a)):
+                for wrap in ('int(any((V_e in {Y} for V_e in {X})))', 'any((V_e in {Y} for V_e in {X}))', '1 if any((V_e in {Y} for V_e in {X})) else 0'):
+                    for X in (f'pairwise({x})', f'list(pairwise({x}))'):
+                        for Y in (f'list(pairwise({y}))', f'set(pairwise({y}))', f'tuple(pairwise({y}))'):
+                            if mexpr(wrap.format(X=X, Y=Y), v) is not None:
+                                ok = ok2 = True
     ctx.check('R5.helper', site(f), ok and ok2, key(f, 'isdisjoint'),
               'isdisjoint does not return non-zero exactly when a consecutive pair of one list is a consecutive pair of the other')
     g = repo.func(RQ, 'compute_path_dsjctn')
